@@ -396,6 +396,59 @@ let read_entry (a : string array) (pos : int ref) : msg_entry =
   { me_ctxt = ctxt; me_msgid = msgid; me_plural = plural; me_msgstr = msgstr; me_msgstr_plural = pl;
     me_flags = fl; me_obsolete = obs; me_previous = prev; me_comment = comment }
 
+(* ---------- strformat.c ---------- *)
+let opt_str = function None -> "-" | Some l -> out_str l
+let numspec_s = function
+  | NNone -> "n" | NNum ds -> "d" ^ out_str ds | NStar i -> "*" ^ opt_str i
+let cbody_s = function
+  | BStd (l, c) -> "S:" ^ out_str l ^ ":" ^ ns c
+  | BMacro (c, l) -> "M:" ^ ns c ^ ":" ^ out_str l
+let ctoken_s = function
+  | CTLit t -> "L:" ^ out_str t
+  | CTDir (d, text) -> "D:" ^ out_str text ^ ":" ^ opt_str d.d_index ^ ":" ^ out_str d.d_flags ^ ":" ^ numspec_s d.d_width
+                      ^ ":" ^ numspec_s d.d_prec ^ ":" ^ cbody_s d.d_body
+  | CTBad r -> "B:" ^ out_str r
+  | CTFuel -> "FUEL"
+let rec ints_of (l : n list) : int list = List.map (fun x -> ZA.to_int (zarith_of_n x)) l
+let cerr_s = function
+  | EError p -> "Error " ^ out_str p
+  | ELengthError (s, l) -> "LengthError " ^ out_str s ^ " " ^ out_str l
+  | EFlagError (s, f) -> "FlagError " ^ out_str s ^ " " ^ out_str [f]
+  | EWidthError s -> "WidthError " ^ out_str s
+  | EWidthRangeError (s, w) -> "WidthRangeError " ^ out_str s ^ " " ^ zs w
+  | EPrecisionError s -> "PrecisionError " ^ out_str s
+  | EPrecisionRangeError s -> "PrecisionRangeError " ^ out_str s
+  | EArgumentRangeError (s, k) -> "ArgumentRangeError " ^ out_str s ^ " " ^ zs k
+  | EArgumentRangeErrorStr (s, k) -> "ArgumentRangeError " ^ out_str s ^ " '" ^ zs k ^ "$'"
+  | EArgumentNumberingMixture s -> "ArgumentNumberingMixture " ^ out_str s
+  | EForbiddenArgumentIndex s -> "ForbiddenArgumentIndex " ^ out_str s
+  | EMissingArgument (s, i) -> "MissingArgument " ^ out_str s ^ " " ^ zs i
+  | EArgumentTypeMismatch (s, i, ts) ->
+    let sorted = List.sort compare (List.map ints_of ts) in
+    "ArgumentTypeMismatch " ^ out_str s ^ " " ^ zs i ^ " "
+    ^ String.concat ";" (List.map (fun l -> "s" ^ String.concat "," (List.map string_of_int l)) sorted)
+let cwarn_s = function
+  | WNonPortable (s, a, b) -> "N:" ^ out_str s ^ ":" ^ out_str a ^ ":" ^ out_str b
+  | WRedundantFlag (s, fl) -> "R:" ^ out_str s ^ ":" ^ out_str fl
+let akind_s = function KWidth -> "W" | KPrec -> "P" | KConv -> "V"
+let carg_s a = akind_s a.a_kind ^ string_of_int (int_of_nat a.a_cid) ^ ":" ^ out_str a.a_type
+let citem_s = function
+  | ILit t -> "L:" ^ out_str t
+  | IConv c -> "C:" ^ out_str c.c_text ^ ":" ^ out_str c.c_type ^ ":" ^ (if c.c_integer then "1" else "0")
+let fmtc_s maxd s =
+  match fmtc_parse maxd s with
+  | Ok fs ->
+    let nargs = List.length fs.fs_arguments in
+    let g = List.init (nargs + 2) (fun n ->
+      match fmtc_glic fs (z_of_zarith (ZA.of_int n)) with
+      | Ok None -> "-" | Ok (Some i) -> string_of_int (int_of_nat i) | Err _ -> "E" | Crash c -> "crash " ^ crash_name c) in
+    "ok I=" ^ String.concat "|" (List.map citem_s fs.fs_items)
+    ^ " A=" ^ String.concat "|" (List.map (fun l -> String.concat "+" (List.map carg_s l)) fs.fs_arguments)
+    ^ " W=" ^ String.concat "|" (List.map cwarn_s fs.fs_warnings)
+    ^ " G=" ^ String.concat "," g
+  | Err e -> "err " ^ cerr_s e
+  | Crash c -> "crash " ^ crash_name c
+
 (* ---------- dispatch ---------- *)
 let handle (op : string) (a : string array) : string =
   match op with
@@ -641,6 +694,11 @@ let handle (op : string) (a : string array) : string =
      | Ok ds -> String.concat " | " ("ok" :: List.map cdiag_s ds)
      | Err _ -> "err"
      | Crash c -> "crash " ^ crash_name c)
+  | "fmtc" -> (* maxd str *)
+    fmtc_s (arg_n a.(0)) (arg_str a.(1))
+  | "ctokens" -> (* str : the directive regex, finditer-style *)
+    let s = arg_str a.(0) in
+    String.concat " " (List.map ctoken_s (fmtc_tokens (nat_of_int (List.length s)) s))
   | _ -> "unknown-op " ^ op
 
 let () =
